@@ -169,8 +169,8 @@ theorem quiet_tellIf (msg key r) : Quiet (fun s => tellIf s msg key r) := by
       split
       · rename_i q _
         split
-        · exact ⟨fun s0 => (holderRef s0 msg.holder).updMod r (fun md => { md with pipe := some (q ++ [{ msg with sub := key.subOf }]) }),
-            Quiet.comp (quiet_updMod r (fun md => { md with pipe := some (q ++ [{ msg with sub := key.subOf }]) }) (fun md => rfl)) (quiet_holderRef _), rfl⟩
+        · exact ⟨fun s0 => (holderRef s0 msg.holder).updMod r (fun md => { md with pipe := some (q ++ [{ msg with sub := key.subOf, rcpt := some r }]) }),
+            Quiet.comp (quiet_updMod r (fun md => { md with pipe := some (q ++ [{ msg with sub := key.subOf, rcpt := some r }]) }) (fun md => rfl)) (quiet_holderRef _), rfl⟩
         · exact ⟨_, Quiet.comp (quiet_destroyMsg _) (quiet_holderRef _), rfl⟩
       · exact ⟨_, Quiet.comp (quiet_destroyMsg _) (quiet_holderRef _), rfl⟩
     · exact ⟨_, Quiet.id, rfl⟩
